@@ -225,6 +225,15 @@ def E():
     return e
 
 
+import re as _re
+
+_ESC = _re.compile(r'\\u\{([0-9a-fA-F]+)\}|\\x([0-9a-fA-F]{2})')
+
+
+def _unescape(s):
+    return _ESC.sub(lambda m: chr(_int(m.group(1) or m.group(2), 16)), s)
+
+
 def pyval(v):
     if z3.is_int_value(v):
         return v.as_long()
@@ -238,7 +247,7 @@ def pyval(v):
         fr = Fraction(v.numerator_as_long(), v.denominator_as_long())
         return {'real': str(fr), 'float': _float(fr)}
     if z3.is_string_value(v):
-        return v.as_string()
+        return _unescape(v.as_string())
     if z3.is_algebraic_value(v):
         return {'real': str(v.approx(10)), 'float': _float(v.approx(10).as_fraction())}
     return str(v)
